@@ -598,6 +598,13 @@ class SqlalchemyRender:
     def prepare_union(self, from_table):
         step1 = self.prepare_select(from_table.left)
         step2 = self.prepare_select(from_table.right)
+        if self.dialect.name == 'sqlite':
+            # sqlite has no parenthesised compound selects: nest them as derived tables
+            def nest(stmt):
+                if isinstance(stmt, sa.sql.selectable.CompoundSelect):
+                    return sa.select(sa.text('*')).select_from(stmt.subquery())
+                return stmt
+            step1, step2 = nest(step1), nest(step2)
 
         if isinstance(from_table, ast.Except):
             func = sa.except_ if from_table.unique else sa.except_all
